@@ -17,7 +17,8 @@ RULE = ('Exhaustive: every ordered pair of set partitions of [n] (restricted gro
         'n<=7 thorough plus, for n=8, a seed-chosen quarter of the Y partitions against all X partitions, each realised with canonical codes and with a sparse injective recoding into [0,2^20). '
         'Generated: element-wise pairs (n<=64) and PRNG-built structured families (independent, function, noisy '
         'copy, constant / all-distinct side, dominant value + singletons, few large + many singleton strata, '
-        'row-permuted copy, identical) with n up to 2000 (quick) / 10^6 (thorough). Non-trivial = both sides '
+        'row-permuted copy, identical) with n up to 2000 (quick) / 10^6 (thorough); a "wide" clause with more than 2^16 distinct '
+        'feature codes (n 65 600 - 72 000, dense or sparse codes) against a target with 2-4 strata. Non-trivial = both sides '
         'non-constant and (I_ref > 1e-3 or at least 2x2 occupied joint cells); distinct = digest of (Y, X).')
 ASSUMPTIONS = ['reference = textbook sum p_xy ln(p_xy/(p_x p_y)) in float64 with math.fsum',
                'tolerance 2e-5 + 2e-6*(H(X)+H(Y)) covers float32 rounding of per-stratum terms and the result']
@@ -43,6 +44,8 @@ def oracle_reference(case, rec):
     iref = rm.mi_ref(Y, X)
     got = mi(Y, X)
     rec.nt(_nontrivial(Y, X, iref), key=[Y.tolist(), X.tolist()] if n <= 64 else case)
+    if 'wide' in case:
+        rec.cls('wide:>65536-distinct-codes')
     rec.cls('n=1' if n == 1 else 'n<=8' if n <= 8 else 'n<=64' if n <= 64 else 'n<=2000' if n <= 2000 else 'n>2000')
     if 'gen' in case:
         rec.cls('fam=' + case['gen']['fam'])
@@ -71,7 +74,7 @@ def oracle_corollaries(case, rec):
         raise Violation(f'self score {sx!r} != H(X)={hx!r}', kind='C01/self')
 
 
-ORACLES = {'C01/reference': oracle_reference, 'C01/corollaries': oracle_corollaries,
+ORACLES = {'C01/wide': oracle_reference, 'C01/reference': oracle_reference, 'C01/corollaries': oracle_corollaries,
            'C01/exhaustive': oracle_reference}
 for _k in ('symmetry', 'nonneg', 'constant', 'upper', 'self'):
     ORACLES['C01/' + _k] = oracle_corollaries
@@ -168,6 +171,8 @@ def run(ctx):
         Clause('C01/corollaries', lambda: pair_strategy(ctx.tier), oracle_corollaries, quick=800, thorough=30000,
                quick_shards=4),
     ]
+    clauses.append(Clause('C01/wide', lambda: gens.wide_pair(), oracle_reference, quick=4, thorough=48, quick_shards=4,
+                          thorough_shards=16))
     if ctx.tier == 'thorough':
         clauses.append(Clause('C01/reference', big_pair_strategy, oracle_reference, quick=0, thorough=192,
                               thorough_shards=16))
